@@ -446,6 +446,11 @@ func (g *FuncGen) execBinOp(x *ssa.BinOp) {
 				break
 			}
 		}
+		// AND with a single-bit constant 2^k, or (unsigned) with a high mask 2^w - 2^k: exact arithmetic forms
+		if exact, ok := andConstForm(x.X, x.Y, a, b, bits, signed); ok {
+			e = exact
+			break
+		}
 		e = fmt.Sprintf("(bitand %s %s)", a, b)
 		g.assumptions["bitwise AND with a non-mask operand is uninterpreted in math mode"] = true
 	case token.AND_NOT:
@@ -1072,4 +1077,34 @@ func (g *FuncGen) rangeOf(v ssa.Value) (lo, hi *big.Int, ok bool) {
 		return tlo, thi, true
 	}
 	return nil, nil, false
+}
+
+// andConstForm gives the arithmetic meaning of x & c for two more shapes of constant c (non-negative x):
+// c == 2^k (one bit): ((x div 2^k) mod 2) * 2^k;  c == 2^w - 2^k for an unsigned w-bit type (clear the
+// low k bits): (x div 2^k) * 2^k.
+func andConstForm(X, Y ssa.Value, a, b string, bits int, signed bool) (string, bool) {
+	try := func(c *big.Int, v string) (string, bool) {
+		if c.Sign() <= 0 {
+			return "", false
+		}
+		if c.BitLen() > 0 && new(big.Int).And(c, new(big.Int).Sub(c, big.NewInt(1))).Sign() == 0 && !signed {
+			k := c.BitLen() - 1
+			return fmt.Sprintf("(* (mod (div %s %s) 2) %s)", v, pow2(k), pow2(k)), true
+		}
+		if !signed {
+			full := new(big.Int).Sub(new(big.Int).Lsh(big.NewInt(1), uint(bits)), big.NewInt(1))
+			low := new(big.Int).Sub(full, c) // the cleared low bits, must be 2^k - 1
+			if k, ok := isPow2Minus1(low); ok && low.Sign() > 0 {
+				return fmt.Sprintf("(* (div %s %s) %s)", v, pow2(k), pow2(k)), true
+			}
+		}
+		return "", false
+	}
+	if c, ok := constInt(Y); ok {
+		return try(c, a)
+	}
+	if c, ok := constInt(X); ok {
+		return try(c, b)
+	}
+	return "", false
 }
